@@ -235,6 +235,13 @@ def check(ctx):
         cs = [c for c in calls(mai, fn_)]
         ok = len(cs) == 1 and kwarg(cs[0], "by") is not None and eqv(kwarg(cs[0], "by"), "self.right_by") and eqv(cs[0].args[0], "self.right")
         ctx.ob("SIB.mirror.asof-heads-tails", mai, f"{fn_}(self.right, <name>, by=self.right_by)", ok, "" if ok else "without by= the first/last row of the neighbouring partition is taken regardless of its group: forward/nearest (resp. backward) matches across a partition boundary pick the wrong group")
+    # ---------------- a merge aligned on divisions makes no hash-partitioning claim
+    mup = ctx.model.module("dask/dataframe/dask_expr/_merge.py").func("Merge.unique_partition_mapping_columns_from_shuffle")
+    fi = [n for n in walk_no_nested(mup) if isinstance(n, ast.If) and eqv(n.test, "self.merge_indexed_left and self.merge_indexed_right")]
+    ok = len(fi) == 1 and any(eqv(r.value, "set()") for r in returns(fi[0]))
+    last = [r for r in returns(mup) if isinstance(r.value, ast.Set)]
+    ok = ok and len(last) == 1 and dominates(mup, fi[0], last[0])
+    ctx.ob("CLAIM.indexed-merge.empty", mup, "fully-indexed merge (both sides on the index, aligned on divisions): the claim is the empty set, decided before {left_on, right_on} is built", ok, "" if ok else "{None} reads as 'hash-partitioned by the index': a following index merge skips its shuffle and matching index values sit in different partitions (duplicated / unmatched rows)")
 
 
 VARIANTS = [
